@@ -73,6 +73,52 @@ def catalogue_names():
     return list(c03_catalogue.MODELS)
 
 
+def coupled_modules():
+    """grep of the library tree: modules that take seed= / rng= or touch random, numpy.random, uuid,
+    time or builtin hash().  Returns {relative path: [patterns found]}."""
+    import importlib.util
+    import re
+    spec = importlib.util.find_spec("happysimulator")
+    root = list(spec.submodule_search_locations)[0]
+    pats = {"import random": re.compile(r"^\s*(import|from) random\b", re.M),
+            "import uuid": re.compile(r"^\s*(import|from) uuid\b", re.M),
+            "import time": re.compile(r"^\s*(import time\b|from time\b)", re.M),
+            "numpy.random": re.compile(r"\bnp\.random\b|numpy\.random"),
+            "hash()": re.compile(r"(?<![\w.])hash\("),
+            "seed/rng parameter": re.compile(r"\b(seed|rng)\b")}
+    out = {}
+    for dirpath, dirnames, filenames in os.walk(root):
+        dirnames[:] = sorted(x for x in dirnames if x != "__pycache__")
+        for fn in sorted(filenames):
+            if fn.endswith(".py"):
+                full = os.path.join(dirpath, fn)
+                try:
+                    src = open(full, encoding="utf-8").read()
+                except OSError:
+                    continue
+                hits = [k for k, rx in pats.items() if rx.search(src)]
+                if hits:
+                    out[os.path.relpath(full, root)] = hits
+    return out
+
+
+def coverage_report():
+    """Every environment-coupled module of the package: covered by which models, or why not."""
+    from props import c03_catalogue
+    table = c03_catalogue.COVERAGE
+    found = coupled_modules()
+    rep, unlisted = {}, []
+    for mod, hits in sorted(found.items()):
+        if mod in table:
+            models, note = table[mod]
+            rep[mod] = ({"touches": hits, "covered_by": models, "note": note} if models
+                        else {"touches": hits, "not_covered": note})
+        else:
+            unlisted.append(mod)
+            rep[mod] = {"touches": hits, "not_covered": "module not yet classified in props/c03_catalogue.COVERAGE"}
+    return rep, unlisted
+
+
 PRIORS_OF = {"front": ("none",), "front-fresh": ("fresh", "none"), "busy": ("busy",), "solo": ("exec-fresh",)}
 
 
@@ -96,9 +142,10 @@ def build_envs(tier, seed, names):
         jobs.append(job)
     if tier == "thorough":
         for name in names:
-            for hs in (BASE_HASH, derived_hashseed(seed)):
-                jobs.append({"hashseed": hs, "clock": "real", "mode": "solo", "models": [name], "reps": 2,
-                             "seeds": seeds})
+            # (the forked 'fresh' pass already covers every hash seed; one exec'ed interpreter per
+            #  model checks that fork-fresh and exec-fresh agree)
+            jobs.append({"hashseed": BASE_HASH, "clock": "real", "mode": "solo", "models": [name], "reps": 2,
+                         "seeds": seeds})
     return jobs
 
 
@@ -397,7 +444,19 @@ def main(tier, seed, only=None):
             if 0 in reps:
                 by_model.setdefault(m, {}).setdefault(sd, sig(reps[0]))
     seed_insensitive = sorted(m for m, per in by_model.items() if len(set(per.values())) <= 1 < len(per))
-    d.extra = {"per_model_environment_queries(max per run)": coupling,
+    try:
+        cov, unlisted = coverage_report()
+    except Exception as ex:  # pragma: no cover  (reporting only)
+        cov, unlisted = {"error": repr(ex)}, []
+    if unlisted:
+        run.notes.append(f"environment-coupled modules not classified in the catalogue coverage table: {unlisted}")
+    d.extra = {"environment_coupled_modules": cov,
+               "environment_coupled_modules_summary": {
+                   "covered": sum(1 for v in cov.values() if isinstance(v, dict) and "covered_by" in v),
+                   "not_covered": sorted(k for k, v in cov.items() if isinstance(v, dict) and "not_covered" in v)},
+               "explicit_seed_models(global RNG state set by the environment answer)": sorted(
+                   __import__("props.c03_catalogue", fromlist=["x"]).EXPLICIT_SEEDS & set(names)),
+               "per_model_environment_queries(max per run)": coupling,
                "per_model_deliveries": sizes,
                "models_whose_digest_ignores_the_seed": seed_insensitive,
                "divergent_model_dimensions": sorted(f"{m}/{dm}" for m, dm in seen)}
